@@ -9,6 +9,7 @@ import (
 	"os"
 	"path/filepath"
 	"sort"
+	"strings"
 	"sync"
 	"time"
 
@@ -164,18 +165,36 @@ func fileEvent(bf *BuiltFile, name string, withBytes bool) (Ev, *Decoded, error)
 	var api map[string]any
 	var txid int
 	var hwm int64
-	db, err := bolt.Open(bf.Path, 0o600, &bolt.Options{ReadOnly: true, Timeout: time.Second})
+	db, err := bolt.Open(bf.Path, 0o600, &bolt.Options{ReadOnly: true, PreLoadFreelist: true, Timeout: time.Second})
 	if err != nil {
 		return nil, d, err
 	}
+	pinfo := []map[string]any{}
 	_ = db.View(func(tx *bolt.Tx) error {
 		api = apiSums(tx, nil)
 		txid = tx.ID()
 		hwm = tx.Size() / int64(d.PageSize)
+		if withBytes {
+			// the page-inspection API, for every page id up to and including the high-water mark
+			for id := 0; id <= int(hwm); id++ {
+				pi, perr := tx.Page(id)
+				q := map[string]any{"id": id, "type": "none", "count": 0, "ov": 0}
+				if perr != nil {
+					q["type"] = "error: " + perr.Error()
+				} else if pi != nil {
+					t := pi.Type
+					if strings.HasPrefix(t, "unknown") {
+						t = "unknown"
+					}
+					q = map[string]any{"id": pi.ID, "type": t, "count": pi.Count, "ov": pi.OverflowCount}
+				}
+				pinfo = append(pinfo, q)
+			}
+		}
 		return nil
 	})
 	db.Close()
-	e := Ev{"ev": "File", "name": name, "ps": d.PageSize, "api": map[string]any{"txid": txid, "hwm": hwm, "root": api}, "graph": graphOf(d)}
+	e := Ev{"ev": "File", "name": name, "ps": d.PageSize, "api": map[string]any{"txid": txid, "hwm": hwm, "root": api}, "graph": graphOf(d), "pinfo": pinfo}
 	if withBytes {
 		n := int(d.Hwm) * d.PageSize
 		if n > len(raw) {
@@ -254,6 +273,13 @@ func CheckC12(c *Ctx) int {
 	c.Cov["golden_files"] = len(goldens)
 	c.evalFormat(evs, 14, "fmt")
 	c.Cov["files_decoded_by_tlc"] = len(evs)
+	npi := 0
+	for _, e := range evs {
+		if pi, ok := e["pinfo"].([]map[string]any); ok {
+			npi += len(pi)
+		}
+	}
+	c.Cov["tx_page_infos_compared"] = npi
 	// the 0xFFFF count convention of the freelist page: > 65534 ids written by both real backends, the page
 	// image decoded with nothing but the published layout and judged by TLC (TraceFreelist: count field 0xFFFF,
 	// leading element = number of ids, ids = sorted free + pending), then re-read by the other backend
